@@ -303,15 +303,43 @@ def rule_G(ck, lib):
                 ok = a[0] == "payload" and a[2] == OK and a[1][0] == "call" and a[1][1].endswith("from_utf8") and a[1][2][0] == taken
                 ck.judge(ok, "C03-G", "%s:span" % name, "Characters = the mnemonic text", "Value::Characters carries %s" % show_term(a))
     ck.judge(found >= {"Hexadecimal", "Binary", "Octal", "Decimal", "Characters"}, "C03-G", "recognisers:found", "recognisers found for %s" % sorted(found), "missing recognisers: found only %s" % sorted(found))
-    # argument() tries exactly the eight kinds
+    # argument() reaches a recogniser for every kind of program data (through helper parsers, if any), each applied to the
+    # argument's own input
     f = sk.fns.get(P + "argument")
     if ck.anchor("C03-G", P + "argument", f):
         kinds = set()
-        for x in f["exits"]:
-            for (pid, inp, t, oc) in sk.apps_on_path(x, f["ps"]):
-                kinds.add(pid_name(pid))
-                ck.judge(inp == f["inp"], "C03-G", "argument:same-input:%s" % pid_name(pid), "alternative applied to the argument's own input", "alternative %s is applied to %s" % (pid_name(pid), show_term(inp)))
-        ck.floor("C03-G", "program data kinds tried by argument()", len(kinds), 8)
+        quotes = set()
+        seen = set()
+
+        def visit(path, inp_ok=True):
+            if path in seen or path not in sk.fns:
+                return
+            seen.add(path)
+            g = sk.fns[path]
+            own = set()
+            for x in g["exits"]:
+                r = sk.exit_result(x)
+                if r and r[0][0] == "ok":
+                    v = sk.val_of(r[0][1])
+                    if v[0] == "ctor" and v[1].startswith(V):
+                        own.add(v[1][len(V):])
+                        if v[1] == V + "String":
+                            for (pid, _, _, _) in sk.apps_on_path(x, g["ps"]):
+                                if pid[0] == "tag":
+                                    quotes.add(pid[1])
+            if own:
+                kinds.update(own)
+                return
+            for x in g["exits"]:
+                for (pid, inp, t, oc) in sk.apps_on_path(x, g["ps"]):
+                    if pid[0] == "fn":
+                        if inp != g["inp"]:
+                            ck.bad("C03-G", "argument:same-input:%s" % pid_name(pid), "alternative %s is applied to %s, not to the argument's own input" % (pid_name(pid), show_term(inp)))
+                        visit(pid[1])
+        visit(P + "argument")
+        want = {"Characters", "Decimal", "Hexadecimal", "Binary", "Octal", "String", "Arbitrary"}
+        ck.judge(kinds >= want and quotes >= {34, 39}, "C03-G", "argument:kinds", "argument() reaches recognisers for %s (quotes %s)" % (sorted(kinds), sorted(quotes)),
+                 "argument() does not reach a recogniser for %s / quote characters %s" % (sorted(want - kinds), sorted({34, 39} - quotes)))
 
 
 def span_of(arg, base, rem):
